@@ -129,12 +129,22 @@ def special_case(case):
             except ValueError:
                 continue
             return {"ok": False, "msg": "coefficient %s with a non-negligible imaginary part was accepted (silently truncated)" % c, "sig": "term:imag-accepted"}
+        Hsame = PauliSum([PauliTerm({0: "Z"}, 1.0), PauliTerm({1: "X"}, c)])
+        for attempt in (1, 2, 3):      # the SAME operator object handed over again after the caller caught the refusal: refused every time
+            try:
+                time_evolution(Hsame, 0.3) if attempt != 3 else time_evolution(Hsame, 0.3, n_steps=2)
+            except ValueError:
+                continue
+            return {"ok": False, "msg": "sum with complex coefficient %s accepted (attempt %d with the same operator object)" % (c, attempt), "sig": "sum:imag-accepted"}
+        Hlate = PauliSum([PauliTerm({0: "Z"}, 1.0), PauliTerm({1: "X"}, 0.5)])
+        time_evolution(Hlate, 0.3)           # fine while real ...
+        Hlate.terms[1].coefficient = c       # ... then a coefficient of the same object is made complex
         try:
-            time_evolution(PauliSum([PauliTerm({0: "Z"}, 1.0), PauliTerm({1: "X"}, c)]), 0.3)
+            time_evolution(Hlate, 0.3)
         except ValueError:
             pass
         else:
-            return {"ok": False, "msg": "sum with complex coefficient %s accepted" % c, "sig": "sum:imag-accepted"}
+            return {"ok": False, "msg": "an operator evolved once with real coefficients and then given the complex coefficient %s was accepted" % c, "sig": "sum:imag-accepted-later"}
         # the same guard through the derivatives entry point, for every position of the complex term and 1-2 steps (a refusal of any kind counts; silent truncation does not)
         from orquestra.quantum.evolution import time_evolution_derivatives
         for Hm in (PauliSum([PauliTerm({0: "Z"}, 1.0), PauliTerm({1: "X"}, c)]), PauliSum([PauliTerm({1: "X"}, c), PauliTerm({0: "Z"}, 1.0)]), PauliSum([PauliTerm({0: "Z", 1: "Z"}, c)]), PauliTerm({0: "X", 1: "Y"}, c)):
